@@ -73,3 +73,10 @@ def structured_series(n, max_changes=2, levels=(0.0, 3.0), texture=0.25):
                 for i in range(len(b) - 1):
                     x += [levels[(start + i) % len(levels)]] * (b[i + 1] - b[i])
                 yield cps, tuple(round(v + e, 6) for v, e in zip(x, tex))
+
+
+def three_columns(xs):
+    """3-column data built from one series: the series, its half-scaled reversal with a small texture, and a
+    non-constant nuisance column (aggregation over ALL columns matters; a detector using only some columns differs)."""
+    n = len(xs)
+    return [[float(xs[i]), float(xs[n - 1 - i]) * 0.5 + 0.25 * (i % 2), 1.0 + 0.5 * ((i * 3) % 4)] for i in range(n)]
